@@ -54,7 +54,8 @@ def run_one(m):
             err = apply_edit(root, dict(e, file=e.get('file', m.get('file'))))
             if err:
                 return m, 'STALE', err
-        r = subprocess.run([os.path.join(VERIF, 'check'), m['prop'], '--root', root, '--tier', 'quick'], capture_output=True, text=True, timeout=300)
+        r = subprocess.run([os.path.join(VERIF, 'check'), m['prop'], '--root', root, '--tier', 'quick'], capture_output=True, text=True, timeout=300,
+                           env=dict(os.environ, KV_REPLAY_DIR=os.path.join(tmp, 'replay')))
         out = r.stdout + r.stderr
         if m.get('neutral'):
             return m, ('OK' if r.returncode == 0 else 'FALSE-ALARM'), out if r.returncode else ''
